@@ -10,6 +10,7 @@ package secp256k1
 
 import (
 	"crypto"
+	_ "crypto/sha256" // registers SHA-256 with package crypto: crypto.SHA256.New() panics in binaries that do not link it.
 	"encoding/binary"
 	"errors"
 	"hash"
